@@ -107,13 +107,34 @@ inductive PrintCmd where
   | flags | reg | range (a b : Nat) | span (a n : Nat) | dsSpan (n : Nat)
   deriving Repr, Inhabited, DecidableEq
 
+/-- the lexer LALRPOP generates for print.lalrpop: white space is skipped; the only terminals are the
+    literals `print flags reg mem -> :` and `[0-9]+` (so `printreg` is the two tokens `print` `reg`) -/
+def lexP : Nat → List Char → List Tok → Option (List Tok)
+  | 0, _, _ => none
+  | _, [], acc => some acc.reverse
+  | fuel+1, c :: cs, acc =>
+    if isSpace c then lexP fuel cs acc
+    else if c.isDigit then
+      lexP fuel ((c :: cs).dropWhile Char.isDigit) (Tok.num (String.ofList ((c :: cs).takeWhile Char.isDigit)) :: acc)
+    else match c :: cs with
+      | 'p' :: 'r' :: 'i' :: 'n' :: 't' :: rest => lexP fuel rest (Tok.kw "print" :: acc)
+      | 'f' :: 'l' :: 'a' :: 'g' :: 's' :: rest => lexP fuel rest (Tok.kw "flags" :: acc)
+      | 'r' :: 'e' :: 'g' :: rest => lexP fuel rest (Tok.kw "reg" :: acc)
+      | 'm' :: 'e' :: 'm' :: rest => lexP fuel rest (Tok.kw "mem" :: acc)
+      | '-' :: '>' :: rest => lexP fuel rest (Tok.arrow :: acc)
+      | ':' :: rest => lexP fuel rest (Tok.colon :: acc)
+      | _ => none
+
+def lexPrint (s : String) : Option (List Tok) :=
+  let cs := s.toList
+  lexP (cs.length + 1) cs []
+
 /-- PrintParser's language: literals print flags reg mem -> : and `[0-9]+` (usize, then `% MB`) -/
 def parsePrint (line : String) : Option PrintCmd :=
-  match lexLine line with
+  match lexPrint line with
   | none => none
   | some toks =>
-    -- the print lexer has no name/negative-number terminals; reuse the interpreter line lexer and
-    -- accept exactly the token shapes of print.lalrpop
+    -- exactly the token shapes of print.lalrpop
     let num := fun (t : Tok) => match t with
       | .num d => if d.length ≤ 19 || (d.toNat?.getD (2^64) < 2^64) then d.toNat?.map (· % MB) else none
       | _ => none
